@@ -1,6 +1,7 @@
 package server
 
 import (
+	"errors"
 	"github.com/cbeuw/Cloak/internal/verifhook"
 	"sync"
 
@@ -20,7 +21,14 @@ type ActiveUser struct {
 
 	sessionsM sync.RWMutex
 	sessions  map[uint32]*mux.Session
+	// terminated is set, under sessionsM, once the user has lost its last session or is being terminated.
+	// From then on the record is (about to be) removed from the panel and must not be given new sessions
+	terminated bool
 }
+
+// errUserTerminated is returned by GetSession on a record that has been deregistered from the panel.
+// The caller should look the user up again
+var errUserTerminated = errors.New("active user has been terminated")
 
 // CloseSession closes a session and removes its reference from the user
 func (u *ActiveUser) CloseSession(sessionID uint32, reason string) {
@@ -32,6 +40,9 @@ func (u *ActiveUser) CloseSession(sessionID uint32, reason string) {
 		sesh.Close()
 	}
 	remaining := len(u.sessions)
+	if remaining == 0 {
+		u.terminated = true
+	}
 	u.sessionsM.Unlock()
 	verifhook.Point("user.CloseSession.unlocked")
 	if remaining == 0 {
@@ -45,6 +56,9 @@ func (u *ActiveUser) CloseSession(sessionID uint32, reason string) {
 func (u *ActiveUser) GetSession(sessionID uint32, config mux.SessionConfig) (sesh *mux.Session, existing bool, err error) {
 	u.sessionsM.Lock()
 	defer u.sessionsM.Unlock()
+	if u.terminated {
+		return nil, false, errUserTerminated
+	}
 	if sesh = u.sessions[sessionID]; sesh != nil {
 		return sesh, true, nil
 	} else {
@@ -71,6 +85,15 @@ func (u *ActiveUser) closeAllSessions(reason string) {
 		delete(u.sessions, sessionID)
 	}
 	u.sessionsM.Unlock()
+}
+
+// terminate bars the record from getting new sessions and closes the ones it has: it is used when
+// the record is about to be removed from the panel
+func (u *ActiveUser) terminate(reason string) {
+	u.sessionsM.Lock()
+	u.terminated = true
+	u.sessionsM.Unlock()
+	u.closeAllSessions(reason)
 }
 
 // NumSession returns the number of active sessions
